@@ -1220,6 +1220,7 @@ def ctor_initial_state(cx, iid):
         ("PacketReceiver::new", "PacketReceiver"): {"receive_window_size": "arg1", "receive_window_mask": "sub(arg1,1)", "base_id": "arg2", "end_id": "arg2"},
         ("half_connection::HalfConnection::new", "HalfConnection"): {"flush_alloc": "0", "sync_reply": "false"},
         ("RecvRateSet::reset", "RecvEntry"): {"value": "arg3", "timestamp_ms": "arg2", "is_initial": "false"},
+        ("RecvRateSet::reset_initial", "RecvEntry"): {"value": "u32::max_value()", "timestamp_ms": "arg2", "is_initial": "true"},
     }
     with cx.instance(iid, "T7 SHAPE (constructors)", "PacketSender / PacketReceiver / HalfConnection start with the window size they were given, empty windows at the negotiated ids, zero counters and zero flush credit; RecvRateSet::reset stores the rate it was given", floor=4) as inst:
         for (fn, adt), fields in want.items():
@@ -1671,3 +1672,66 @@ def receiver_flag_addressing(cx, iid):
                     walk(b, loc, e, None)
         if n[0] < 10:
             inst.violation("half_connection::packet_receiver::PacketReceiver", "flag accesses", "fewer flag accesses than counted by hand (anchor)")
+
+
+def acked_flag_writers(cx, iid):
+    """T9 WHO-MAY-WRITE: a logged frame's `acked` flag is what makes a repeated acknowledgement inert.  It starts false
+    where the frame is logged (FrameQueue::push), is set to true by acknowledge_group, and is never cleared again:
+    any other write (a "fresh start" of the loss history, a resend) lets a duplicate or replay of an earlier genuine
+    acknowledgement count a second time towards RTT, receive rate and loss estimates."""
+    R = cx.R
+    with cx.instance(iid, "T9 WHO-MAY-WRITE", "frame-log `acked` is false at FrameQueue::push, set true only in acknowledge_group, never cleared", floor=2) as inst:
+        n = 0
+        for b in R.all_bodies():
+            if "half_connection::" not in b.path:
+                continue
+            for l, node, ps in b.field_writes(r".*\.acked"):
+                v = show(b.rvalue_expr(node["rv"])) if node["k"] == "assign" else "call"
+                n += 1
+                inst.site(b, l, "%s: acked = %s" % (b.path.split("::")[-1], v))
+                if not (b.path.endswith("FrameQueue::acknowledge_group") and v == "true"):
+                    inst.violation(b.path, "write of acked", "%s sets a logged frame's acked flag to `%s`: once acknowledged a frame stays acknowledged" % (b.path.split("::")[-1], v), at=b.span_at(l))
+            for l, s in b.assigns():
+                rv = s["rv"]
+                if rv["k"] == "agg" and str(rv.get("adt", "")).endswith("frame_queue::Entry") and rv.get("fields") and "acked" in rv["fields"]:
+                    v = show(b.operand_expr(rv["ops"][rv["fields"].index("acked")]))
+                    n += 1
+                    inst.site(b, l, "%s: Entry{acked: %s}" % (b.path.split("::")[-1], v))
+                    if v != "false" or not b.path.endswith("FrameQueue::push"):
+                        inst.violation(b.path, "Entry literal", "a frame-log entry is created with acked = %s in %s" % (v, b.path.split("::")[-1]), at=b.span_at(l))
+        if n < 2:
+            inst.violation("half_connection::frame_queue", "acked", "the acked flag's writers were not found (anchor)")
+
+
+def insert_only_absent(cx, iid):
+    """T1 GUARD: the server stores a new connection under an address only when the address has no entry.  An entry that is
+    replaced keeps its timers: when the old handshake's retry budget runs out its timer removes *by address* and deletes
+    the newer, established connection from the map, whose deadline is then never refreshed again: Error(Timeout) for a
+    peer whose frames keep arriving."""
+    R = cx.R
+    with cx.instance(iid, "T1 GUARD", "clients.insert only under `clients.get(address)` is None", floor=1) as inst:
+        b = R.body("server::Server::handle_handshake_syn")
+        sinks = call_sites(b, "HashMap::insert", r"arg1\.clients")
+        if not sinks:
+            inst.violation(b.path, "clients.insert", "handle_handshake_syn no longer inserts into the address map (anchor)")
+        cx.guard(inst, b, sinks, [[r"is\(HashMap::get\(arg1\.clients,arg2\),None\)"]], construct="insert replacing an entry",
+                 why="a repeated SYN must never replace an existing entry: the old entry's timers remove by address")
+
+
+def send_pending_covers_queues(cx, iid):
+    """T1 GUARD: "nothing pending" is reported only when the send queue, the queue of fragments not yet transmitted and the
+    resend queue are all empty.  A fragmented Unreliable packet cut across several flushes lives only in the pending queue
+    after the first flush: a predicate that forgets that queue lets a flush-mode disconnect close the connection with the
+    rest of the packet unsent."""
+    R = cx.R
+    from rules import return_alts
+    from mirlib import alt_satisfies
+    with cx.instance(iid, "T1 GUARD", "is_send_pending() is false only with send queue, pending queue and resend queue all empty", floor=1) as inst:
+        isp = R.body("HalfConnection::is_send_pending")
+        fal = return_alts(cx, isp, False)
+        if not fal:
+            inst.violation(isp.path, "return false", "is_send_pending has no false return (anchor)")
+        for loc, alt in fal:
+            inst.site(isp, loc, "is_send_pending -> false", {"under": sorted(alt)})
+            if not alt_satisfies(alt, [r"eq\(0,PacketSender::pending_count\(arg1\.packet_sender\)\)", r"eq\(0,VecDeque::len\(arg1\.pending_queue\)\)", r"eq\(0,BinaryHeap::len\(arg1\.resend_queue\)\)"]):
+                inst.violation(isp.path, "is_send_pending false with data queued", "'nothing pending' is reported although one of send queue / pending queue / resend queue may be non-empty", at=isp.span_at(loc), detail={"facts": sorted(alt)})
